@@ -167,6 +167,11 @@ func ListenTo(inPort drivers.In, recv func(msg Message, timestampms int32), opts
 			}
 		}
 
+		// nothing to deliver: unpaired 0xF7, undefined system common status or data without running status
+		if msg == nil {
+			return
+		}
+
 		recv(msg, millisec)
 	}
 
